@@ -114,24 +114,22 @@ func C17(c *Ctx) {
 			}
 		})
 		c.Decide(len(assigns) >= 1, r2, key(cb, "has:result-assignment"), cb.Pos(), 1, "selection site found", "cannot find the selection assignment in getWriteForRead's callback")
-		for _, kind := range []string{"Mutation_Rollback", "Mutation_Lock"} {
-			skipped := false
-			for _, kt := range kts {
-				if kt.val != ops[kind] {
-					continue
-				}
-				// equal edge must not reach any assignment; and must return true (continue scanning)
-				reach := false
-				for _, a := range assigns {
-					if blockReaches(kt.eq, a.Block()) {
-						reach = true
-					}
-				}
-				if !reach && returnsBool(kt.eq, true) {
-					skipped = true
+		_ = kts
+		// decided per kind by evaluating every `Kind == const` / `Kind != const` test (also when the
+		// tests are folded into a boolean variable): with Kind fixed, is a selection assignment reachable?
+		for _, kind := range []string{"Mutation_Rollback", "Mutation_Lock", "Mutation_Put", "Mutation_Delete"} {
+			env := kindEnv(ops, ops[kind])
+			reach := false
+			for _, a := range assigns {
+				if env.Reaches(cb, a) {
+					reach = true
 				}
 			}
-			c.Decide(skipped, r2, key(cb, "kind:"+kind+"→skip"), cb.Pos(), len(kts)+1, kind+" records are skipped (scan continues, never selected)", kind+" records can be selected as the visible write: a rolled-back or lock-only transaction hides the committed value below it")
+			if kind == "Mutation_Rollback" || kind == "Mutation_Lock" {
+				c.Decide(!reach, r2, key(cb, "kind:"+kind+"→skip"), cb.Pos(), env.Visited+1, kind+" records are skipped (scan continues, never selected)", kind+" records can be selected as the visible write: a rolled-back or lock-only transaction hides the committed value below it")
+			} else {
+				c.Decide(reach, r2, key(cb, "kind:"+kind+"→selectable"), cb.Pos(), env.Visited+1, kind+" records can be selected", kind+" records are never selected as the visible write")
+			}
 		}
 		// ts <= readTs guard on the assignment
 		leq := false
@@ -1065,4 +1063,36 @@ func returnsValue(fn *ssa.Function, v ssa.Value) bool {
 		}
 	}
 	return false
+}
+
+// kindEnv fixes the value of every pb.Mutation_Op operand to actual: each comparison of a
+// Mutation_Op value with a constant k becomes an atom whose sign is cmp(actual, k).
+func kindEnv(ops map[string]int64, actual int64) *SignEnv {
+	signs := map[string]int{}
+	for _, k := range ops {
+		s := 0
+		if actual < k {
+			s = -1
+		} else if actual > k {
+			s = 1
+		}
+		signs[fmt.Sprintf("kind:%d", k)] = s
+	}
+	return &SignEnv{Depth: 1, Signs: signs, Classify: func(bo *ssa.BinOp) (string, bool, bool) {
+		x, y := bo.X, bo.Y
+		flipped := false
+		if TypeName(x.Type()) != "pb.Mutation_Op" {
+			return "", false, false
+		}
+		k, ok := y.(*ssa.Const)
+		if !ok {
+			k, ok = x.(*ssa.Const)
+			flipped = true
+		}
+		if !ok || k.Value == nil {
+			return "", false, false
+		}
+		v, _ := constant.Int64Val(constant.ToInt(k.Value))
+		return fmt.Sprintf("kind:%d", v), flipped, true
+	}}
 }
